@@ -1,4 +1,617 @@
-/-! Model/C10 — executable model (core Lean only; imports only NibabelModel.Basic.* / other Model files). -/
+/-
+  Model/C10 — executable model of the fixed-layout binary headers of nibabel (core Lean only).
+
+  Python source modelled (pinned tree):
+  * nibabel/wrapstruct.py  WrapStruct.__init__ 130-172 (`ofBytes`, `ofBytesGuess`), binaryblock 193-209
+    (`binaryblock`), endianness 235-258, copy 261-272 (`copy`), __eq__ 274-297 (`hdrEq`),
+    as_byteswapped 418-477 (`asByteswapped`), check_fix 346-362 + nibabel/batteryrunners.py
+    BatteryRunner.check_only/check_fix 131-172 (`runOnly`, `runFix`);
+  * numpy structured-dtype semantics used by the above (`np.ndarray(shape=(), dtype, buffer)`,
+    `.tobytes()`, `.byteswap()`, field access) — modelled by `parse`/`serialize`/`swapFields` over a
+    `Layout` that is REGENERATED from `np.dtype(header_dtd)` (Generated/C10Layouts.lean);
+  * nibabel/analyze.py AnalyzeHeader.guessed_endian 255-336 (`guessAnalyze`; NIfTI-1/2, SPM inherit it
+    with their own `sizeof_hdr`), nibabel/ecat.py EcatHeader.guessed_endian 283-289 (`guessEcat`),
+    nibabel/freesurfer/mghformat.py MGHHeader.guessed_endian 358-361 (always big endian) and
+    MGHHeader.__init__/_set_affine_default 104-127,380-385 (`mghNormalise`);
+  * the check batteries: analyze.py _chk_sizeof_hdr/_chk_datatype/_chk_bitpix/_chk_pixdims 794-882,
+    spm99analyze.py _chk_origin 213-224, nifti1.py _chk_qfac/_chk_magic/_chk_offset/_chk_xform_code
+    1883-1953, nifti2.py _chk_eol_check 203-222, mghformat.py chk_version 129-137
+    (`reportOf`, `fixOf`; the battery order of every class is regenerated from `_get_checks()`).
+
+  Conventions
+  * a byte string is `List UInt8`; a field value is the list of its items as RAW UNSIGNED bit
+    patterns (`Nat`), read in the header's byte order.  Signed integers are obtained with `toInt`;
+    floats stay bit patterns (the checks only need sign / zero / NaN classes, `abs`, the constant 1.0
+    and, for NIfTI-1 `vox_offset`, the exact dyadic value `FloatFmt.decode`); an `S<k>` byte-string
+    field is `k` items of width 1 (byte order does not apply to it).
+  * an external contract: NumPy's float comparisons / `np.abs` / Python's `%` on the decoded value
+    behave like IEEE-754 (abs clears the sign bit also of NaNs; comparisons with NaN are false).
+-/
 namespace Nb.C10
+
+abbrev Byte := UInt8
+
+inductive Endian where
+  | le | be
+  deriving DecidableEq, Repr, Inhabited
+
+def Endian.swap : Endian → Endian
+  | .le => .be
+  | .be => .le
+
+/-! ### byte codec -/
+
+/-- little-endian encoding of `v mod 256^w` into `w` bytes -/
+def encLE : Nat → Nat → List Byte
+  | 0, _ => []
+  | w + 1, v => UInt8.ofNat (v % 256) :: encLE w (v / 256)
+
+def decLE : List Byte → Nat
+  | [] => 0
+  | b :: bs => b.toNat + 256 * decLE bs
+
+def enc (e : Endian) (w v : Nat) : List Byte :=
+  match e with
+  | .le => encLE w v
+  | .be => (encLE w v).reverse
+
+def dec (e : Endian) (bs : List Byte) : Nat :=
+  match e with
+  | .le => decLE bs
+  | .be => decLE bs.reverse
+
+/-- two's-complement reading of a `w`-byte unsigned pattern -/
+def toInt (w v : Nat) : Int :=
+  if 2 * v < 256 ^ w then (v : Int) else (v : Int) - ((256 ^ w : Nat) : Int)
+
+/-- two's-complement pattern of an integer (what NumPy stores for an in-range value) -/
+def ofInt (w : Nat) (i : Int) : Nat := (i % ((256 ^ w : Nat) : Int)).toNat
+
+/-! ### layouts -/
+
+inductive Kind where
+  | int | uint | float | bytes
+  deriving DecidableEq, Repr, Inhabited
+
+/-- one field of a NumPy structured dtype: `isz` = itemsize of the base dtype, `count` = product of the
+    sub-array shape -/
+structure Field where
+  name : String
+  offset : Nat
+  isz : Nat
+  count : Nat
+  kind : Kind
+  deriving DecidableEq, Repr, Inhabited
+
+/-- width of one byte-order unit -/
+def Field.iw (f : Field) : Nat := if f.kind = .bytes then 1 else f.isz
+/-- number of byte-order units -/
+def Field.n (f : Field) : Nat := if f.kind = .bytes then f.isz * f.count else f.count
+def Field.nbytes (f : Field) : Nat := f.iw * f.n
+
+structure Layout where
+  name : String
+  size : Nat
+  fields : List Field
+  deriving Repr, Inhabited, DecidableEq
+
+/-- the fields tile `[off, size)` in order with no gap and no overlap -/
+def tiles : List Field → Nat → Nat → Bool
+  | [], off, size => off == size
+  | f :: fs, off, size => f.offset == off && tiles fs (off + f.nbytes) size
+
+def Layout.wf (L : Layout) : Bool := tiles L.fields 0 L.size
+
+def Layout.find? (L : Layout) (name : String) : Option Field := L.fields.find? (·.name == name)
+def Layout.findIdx? (L : Layout) (name : String) : Option Nat := L.fields.findIdx? (·.name == name)
+
+/-! ### structured record codec (NumPy `ndarray(shape=(), dtype=…, buffer=bs)` / `tobytes` / `byteswap`) -/
+
+def decItems (e : Endian) (w : Nat) : Nat → List Byte → List Nat
+  | 0, _ => []
+  | n + 1, bs => dec e (bs.take w) :: decItems e w n (bs.drop w)
+
+def encItems (e : Endian) (w : Nat) : List Nat → List Byte
+  | [] => []
+  | v :: vs => enc e w v ++ encItems e w vs
+
+def swapItems (w : Nat) : Nat → List Byte → List Byte
+  | 0, _ => []
+  | n + 1, bs => (bs.take w).reverse ++ swapItems w n (bs.drop w)
+
+/-- field access: items of field `f` read at its offset in byte order `e` -/
+def parseField (f : Field) (e : Endian) (bs : List Byte) : List Nat :=
+  decItems e f.iw f.n (bs.drop f.offset)
+
+def parseFs (fs : List Field) (e : Endian) (bs : List Byte) : List (List Nat) :=
+  fs.map (fun f => parseField f e bs)
+
+def parse (L : Layout) (e : Endian) (bs : List Byte) : List (List Nat) := parseFs L.fields e bs
+
+/-- `tobytes()` of a packed record: the fields' encodings one after the other -/
+def serializeFs : List Field → Endian → List (List Nat) → List Byte
+  | f :: fs, e, v :: vs => encItems e f.iw v ++ serializeFs fs e vs
+  | _, _, _ => []
+
+def serialize (L : Layout) (e : Endian) (vals : List (List Nat)) : List Byte :=
+  serializeFs L.fields e vals
+
+/-- `structarr.byteswap().tobytes()`: every item of every field reversed in place -/
+def swapFs : List Field → List Byte → List Byte
+  | [], _ => []
+  | f :: fs, bs => swapItems f.iw f.n (bs.drop f.offset) ++ swapFs fs bs
+
+def swapFields (L : Layout) (bs : List Byte) : List Byte := swapFs L.fields bs
+
+/-- values are representable: one list per field, `n` items each `< 256^iw` -/
+def valsOk : List Field → List (List Nat) → Bool
+  | [], [] => true
+  | f :: fs, v :: vs => v.length == f.n && v.all (fun x => decide (x < 256 ^ f.iw)) && valsOk fs vs
+  | _, _ => false
+
+/-! ### WrapStruct -/
+
+structure Hdr where
+  e : Endian
+  vals : List (List Nat)
+  deriving DecidableEq, Repr, Inhabited
+
+def Hdr.ok (L : Layout) (h : Hdr) : Bool := valsOk L.fields h.vals
+
+/-- `WrapStruct(binaryblock, endianness=e, check=False)` -/
+def ofBytes (L : Layout) (e : Endian) (bs : List Byte) : Hdr := ⟨e, parse L e bs⟩
+
+def binaryblock (L : Layout) (h : Hdr) : List Byte := serialize L h.e h.vals
+
+/-- `as_byteswapped()` (endianness=None: swap from the current one) -/
+def asByteswapped (L : Layout) (h : Hdr) : Hdr :=
+  ofBytes L h.e.swap (swapFields L (binaryblock L h))
+
+/-- `copy()` = `self.__class__(self.binaryblock, self.endianness, check=False)` -/
+def copy (L : Layout) (h : Hdr) : Hdr := ofBytes L h.e (binaryblock L h)
+
+/-- `__eq__` -/
+def hdrEq (L : Layout) (a b : Hdr) : Bool :=
+  if a.e = b.e then binaryblock L a == binaryblock L b
+  else binaryblock L a == swapFields L (binaryblock L b)
+
+/-- `hdr[name] = items` (items already reduced to their bit patterns) -/
+def Hdr.setField (L : Layout) (h : Hdr) (name : String) (v : List Nat) : Hdr :=
+  match L.findIdx? name with
+  | some i => { h with vals := h.vals.set i v }
+  | none => h
+
+/-! A heap of header buffers, to state that `copy` allocates a fresh buffer: object `i` is
+    `heap[i]`; `copyObj` appends, `setObj` updates one object. -/
+abbrev Heap := List Hdr
+
+def Heap.copyObj (L : Layout) (s : Heap) (i : Nat) : Heap × Nat :=
+  (s ++ [copy L (s.getD i default)], s.length)
+
+def Heap.setObj (L : Layout) (s : Heap) (i : Nat) (name : String) (v : List Nat) : Heap :=
+  if i < s.length then s.set i ((s.getD i default).setField L name v) else s
+
+def Heap.setMany (L : Layout) (s : Heap) (j : Nat) (ws : List (String × List Nat)) : Heap :=
+  ws.foldl (fun s w => Heap.setObj L s j w.1 w.2) s
+
+/-! ### endianness guessing -/
+
+/-- item `i` of a field of item width `w` at `off`, read in byte order `e` -/
+def itemAt (e : Endian) (off w i : Nat) (bs : List Byte) : Nat :=
+  dec e ((bs.drop (off + w * i)).take w)
+
+structure GuessSpec where
+  szOff : Nat
+  szW : Nat
+  dimOff : Nat
+  dimW : Nat
+  sizeofHdr : Nat
+  deriving Repr, DecidableEq
+
+/-- side conditions under which the guess is right for every valid header: dim[0] is at least two
+    bytes wide, `sizeof_hdr` is a non-negative value of its field that is not a byte palindrome, both
+    fields lie inside the block -/
+def GuessSpec.ok (g : GuessSpec) (size : Nat) : Bool :=
+  decide (2 ≤ g.dimW) && decide (2 * g.sizeofHdr < 256 ^ g.szW) &&
+  decide (decLE (encLE g.szW g.sizeofHdr).reverse ≠ g.sizeofHdr) &&
+  decide (g.dimOff + g.dimW ≤ size) && decide (g.szOff + g.szW ≤ size)
+
+def Layout.guessSpec? (L : Layout) (sizeofHdr : Nat) : Option GuessSpec :=
+  match L.find? "sizeof_hdr", L.find? "dim" with
+  | some s, some d => some ⟨s.offset, s.iw, d.offset, d.iw, sizeofHdr⟩
+  | _, _ => none
+
+/-- `AnalyzeHeader.guessed_endian` applied to the record read in the machine's byte order `native`
+    (analyze.py 329-336): dim[0]==0 → sizeof_hdr byteswapped == klass.sizeof_hdr ? swapped : native;
+    1<=dim[0]<=7 → native; else swapped. -/
+def guessAnalyze (g : GuessSpec) (native : Endian) (bs : List Byte) : Endian :=
+  let dim0 := toInt g.dimW (itemAt native g.dimOff g.dimW 0 bs)
+  if dim0 = 0 then
+    if toInt g.szW (itemAt native.swap g.szOff g.szW 0 bs) = (g.sizeofHdr : Int) then native.swap
+    else native
+  else if 1 ≤ dim0 ∧ dim0 ≤ 7 then native
+  else native.swap
+
+/-- `EcatHeader.guessed_endian` (ecat.py 285-289): sw_version (u2) == 74 → native else swapped -/
+def guessEcat (swOff : Nat) (native : Endian) (bs : List Byte) : Endian :=
+  if itemAt native swOff 2 0 bs = 74 then native else native.swap
+
+inductive GuessKind where
+  | analyze (sizeofHdr : Nat)
+  | ecat
+  | bigEndian          -- MGH: always '>'
+  deriving Repr, DecidableEq, Inhabited
+
+def guessEndian (L : Layout) (k : GuessKind) (native : Endian) (bs : List Byte) : Option Endian :=
+  match k with
+  | .analyze sz => (L.guessSpec? sz).map (fun g => guessAnalyze g native bs)
+  | .ecat => (L.find? "sw_version").map (fun f => guessEcat f.offset native bs)
+  | .bigEndian => some .be
+
+/-! ### floats as bit patterns -/
+
+structure FloatFmt where
+  half : Nat      -- weight of the sign bit, 2^(bits-1)
+  inf : Nat       -- magnitude pattern of +inf (exponent all ones, fraction 0)
+  one : Nat       -- pattern of 1.0
+  mbits : Nat     -- fraction bits
+  bias : Nat
+  deriving Repr, DecidableEq, Inhabited
+
+def fmt32 : FloatFmt := ⟨2 ^ 31, 0x7F800000, 0x3F800000, 23, 127⟩
+def fmt64 : FloatFmt := ⟨2 ^ 63, 0x7FF0000000000000, 0x3FF0000000000000, 52, 1023⟩
+
+namespace FloatFmt
+variable (F : FloatFmt)
+def mag (p : Nat) : Nat := p % F.half
+def signSet (p : Nat) : Bool := decide (F.half ≤ p)
+def isNaN (p : Nat) : Bool := decide (F.inf < F.mag p)
+def isZero (p : Nat) : Bool := decide (F.mag p = 0)
+/-- `x < 0` -/
+def isNeg (p : Nat) : Bool := F.signSet p && !F.isZero p && !F.isNaN p
+/-- `x <= 0` -/
+def le0 (p : Nat) : Bool := F.isZero p || F.isNeg p
+/-- `np.abs`: clear the sign bit -/
+def abs (p : Nat) : Nat := F.mag p
+def negOne : Nat := F.one + F.half
+end FloatFmt
+
+/-- what the theorems about the checks need from a float format -/
+def FloatFmt.ok (F : FloatFmt) : Bool := decide (0 < F.half) && !F.le0 F.one
+
+/-- exact value of a float / integer field: `fin num k` = num / 2^k -/
+inductive OffVal where
+  | nan | pinf | ninf
+  | fin (num : Int) (k : Nat)
+  deriving Repr, DecidableEq, Inhabited
+
+def FloatFmt.decode (F : FloatFmt) (p : Nat) : OffVal :=
+  let m := F.mag p
+  let neg := F.signSet p
+  if F.inf < m then .nan
+  else if m = F.inf then (if neg then .ninf else .pinf)
+  else
+    let ex := m / 2 ^ F.mbits
+    let fr := m % 2 ^ F.mbits
+    let M : Nat := if ex = 0 then fr else 2 ^ F.mbits + fr
+    let E : Int := (if ex = 0 then 1 else (ex : Int)) - (F.bias : Int) - (F.mbits : Int)
+    let s : Int := if neg then -(M : Int) else (M : Int)
+    if 0 ≤ E then .fin (s * (2 ^ E.toNat : Nat)) 0 else .fin s (-E).toNat
+
+def OffVal.isZero : OffVal → Bool
+  | .fin n _ => n == 0
+  | _ => false
+
+/-- the value is exactly the integer `c` -/
+def OffVal.eqInt (c : Int) : OffVal → Bool
+  | .fin n k => n == c * (2 ^ k : Nat)
+  | _ => false
+
+/-- `x < c` for an integer `c` -/
+def OffVal.ltInt (c : Int) : OffVal → Bool
+  | .fin n k => decide (n < c * (2 ^ k : Nat))
+  | .ninf => true
+  | _ => false
+
+/-- `not x % 16` (Python float/int `%`; inf and nan give nan, which is truthy) -/
+def OffVal.mod16Zero : OffVal → Bool
+  | .fin n k => n % (16 * (2 ^ k : Nat) : Int) == 0
+  | _ => false
+
+inductive VoxKind where
+  | f32      -- NIfTI-1 / Analyze: float32
+  | i64      -- NIfTI-2: int64
+  deriving Repr, DecidableEq, Inhabited
+
+def VoxKind.decode : VoxKind → Nat → OffVal
+  | .f32, p => fmt32.decode p
+  | .i64, p => .fin (toInt 8 p) 0
+
+/-! ### data-type code tables (`make_dt_codes`, volumeutils.py 346-383) -/
+
+/-- one row: code, NumPy kind char and itemsize of `dtype`, the same of `sw_dtype`, and whether
+    `sw_dtype` has the opposite byte order (`'='`/`'<'` vs `'>'`; `'|'` = not applicable) -/
+structure DtCode where
+  code : Int
+  kind : Char
+  isz : Nat
+  swKind : Char
+  swIsz : Nat
+  swOpposite : Bool
+  deriving Repr, DecidableEq, Inhabited
+
+def dtFind (t : List DtCode) (code : Int) : Option DtCode := t.find? (·.code == code)
+def dtItemsize (t : List DtCode) (code : Int) : Option Nat := (dtFind t code).map (·.isz)
+/-- reverse lookup dtype → code (Recoder: any of the synonyms indexes the row) for non-void dtypes -/
+def dtCodeOf (t : List DtCode) (kind : Char) (isz : Nat) : Option Int :=
+  (t.find? (fun r => r.kind == kind && r.isz == isz)).map (·.code)
+
+/-- table consistency: codes distinct; swapped dtype has same kind and size, and the opposite byte
+    order exactly when the type has a byte order (numeric, itemsize > 1) -/
+def dtRowOk (r : DtCode) : Bool :=
+  r.swKind == r.kind && r.swIsz == r.isz &&
+  (r.swOpposite == (r.kind != 'V' && r.kind != 'S' && decide (1 < r.isz)))
+
+def dtTableOk (t : List DtCode) : Bool :=
+  t.all dtRowOk &&
+  t.all (fun r => dtFind t r.code == some r) &&
+  t.all (fun r => r.isz == 0 || dtCodeOf t r.kind r.isz == some r.code)
+
+/-! ### header checks -/
+
+inductive CheckId where
+  | sizeofHdr | datatype | bitpix | pixdims | qfac | magic | offset | qform | sform | eol | origin
+  | version
+  deriving DecidableEq, Repr, Inhabited
+
+inductive Msg where
+  | none | sizeof | dtUnrec | dtUnsup | bpNoDt | bpMismatch | pdZero | pdNeg | pdZeroNeg | qfac
+  | magic | offLow | off16 | qform | sform | eolZero | eolBad | origin | version
+  deriving DecidableEq, Repr, Inhabited
+
+/-- `Report`: problem_level, message class, whether `fix_msg` is non-empty when run with fix=True -/
+structure Report where
+  level : Nat
+  msg : Msg
+  fixMsg : Bool
+  deriving DecidableEq, Repr, Inhabited
+
+def Report.clean : Report := ⟨0, .none, false⟩
+
+/-- the fields the checks read or write -/
+structure CF where
+  sizeofHdr : Int
+  datatype : Int
+  bitpix : Int
+  qfac : Nat             -- pixdim[0], bit pattern
+  pixdim : List Nat      -- pixdim[1:4], bit patterns
+  magic : List Nat       -- raw bytes of `magic`
+  voxOffset : Nat        -- raw pattern of `vox_offset`
+  qform : Int
+  sform : Int
+  eol : List Int         -- eol_check (int8 x 4)
+  origin : List Int      -- origin[0:3]  (int16)
+  dim : List Int         -- dim[1:4]     (int16)
+  version : Int
+  deriving DecidableEq, Repr, Inhabited
+
+/-- per-class constants; regenerated from the class attributes -/
+structure ClsSpec where
+  name : String
+  layout : String
+  sizeofHdr : Int
+  checks : List CheckId
+  dtTable : List DtCode
+  pixFmt : FloatFmt
+  voxKind : VoxKind
+  singleMagic : List Nat
+  pairMagic : List Nat
+  singleVoxOffset : Int
+  singleVoxPattern : Nat
+  xformCodes : List Int
+  guess : GuessKind
+  swappable : Bool
+  deriving Repr, Inhabited, DecidableEq
+
+/-- `bytes_field.item()`: NumPy strips trailing NULs of an `S` item -/
+def stripNul (l : List Nat) : List Nat := (l.reverse.dropWhile (· == 0)).reverse
+
+def wrap16 (x : Int) : Int := (x + 32768) % 65536 - 32768
+
+def eolGood : List Int := [13, 10, 26, 10]
+
+/-- `_chk_pixdims` with fix (analyze.py 849-877) on the three spatial pixdims -/
+def fixPixdims (F : FloatFmt) (d : List Nat) : List Nat :=
+  if !d.any F.le0 then d
+  else
+    let d1 := if d.any F.isZero then d.map (fun p => if F.isZero p then F.one else p) else d
+    if d.any F.isNeg then d1.map F.abs else d1
+
+def originOk (origin dim : List Int) : Bool :=
+  origin.all (· == 0) ||
+  ((List.zipWith (fun o d => decide (o > wrap16 (-d))) origin dim).all id &&
+   (List.zipWith (fun o d => decide (o < wrap16 (d * 2))) origin dim).all id)
+
+/-- the report each `_chk_*` produces on `h` -/
+def reportOf (c : ClsSpec) : CheckId → CF → Report
+  | .sizeofHdr, h => if h.sizeofHdr = c.sizeofHdr then .clean else ⟨30, .sizeof, true⟩
+  | .datatype, h =>
+      match dtItemsize c.dtTable h.datatype with
+      | none => ⟨40, .dtUnrec, true⟩
+      | some 0 => ⟨40, .dtUnsup, true⟩
+      | some _ => .clean
+  | .bitpix, h =>
+      match dtItemsize c.dtTable h.datatype with
+      | none => ⟨10, .bpNoDt, true⟩
+      | some n => if ((8 * n : Nat) : Int) = h.bitpix then .clean else ⟨10, .bpMismatch, true⟩
+  | .pixdims, h =>
+      if !h.pixdim.any c.pixFmt.le0 then .clean
+      else if h.pixdim.any c.pixFmt.isNeg then
+        (if h.pixdim.any c.pixFmt.isZero then ⟨35, .pdZeroNeg, true⟩ else ⟨35, .pdNeg, true⟩)
+      else ⟨30, .pdZero, true⟩
+  | .qfac, h =>
+      if h.qfac = c.pixFmt.one ∨ h.qfac = c.pixFmt.negOne then .clean else ⟨20, .qfac, true⟩
+  | .magic, h =>
+      if stripNul h.magic = c.pairMagic ∨ stripNul h.magic = c.singleMagic then .clean
+      else ⟨45, .magic, true⟩
+  | .offset, h =>
+      let v := c.voxKind.decode h.voxOffset
+      if v.isZero then .clean
+      else if stripNul h.magic = c.singleMagic ∧ v.ltInt c.singleVoxOffset = true then ⟨40, .offLow, true⟩
+      else if v.mod16Zero then .clean
+      else ⟨30, .off16, true⟩
+  | .qform, h => if h.qform ∈ c.xformCodes then .clean else ⟨30, .qform, true⟩
+  | .sform, h => if h.sform ∈ c.xformCodes then .clean else ⟨30, .sform, true⟩
+  | .eol, h =>
+      if h.eol = eolGood then .clean
+      else if h.eol.all (· == 0) then ⟨20, .eolZero, true⟩
+      else ⟨40, .eolBad, true⟩
+  | .origin, h => if originOk h.origin h.dim then .clean else ⟨20, .origin, true⟩
+  | .version, h => if h.version = 1 then .clean else ⟨40, .version, false⟩
+
+/-- the in-place repair each `_chk_*` performs when called with fix=True -/
+def fixOf (c : ClsSpec) : CheckId → CF → CF
+  | .sizeofHdr, h => { h with sizeofHdr := if h.sizeofHdr = c.sizeofHdr then h.sizeofHdr else c.sizeofHdr }
+  | .datatype, h => h
+  | .bitpix, h =>
+      { h with bitpix := match dtItemsize c.dtTable h.datatype with
+                         | none => h.bitpix
+                         | some n => if ((8 * n : Nat) : Int) = h.bitpix then h.bitpix else ((8 * n : Nat) : Int) }
+  | .pixdims, h => { h with pixdim := fixPixdims c.pixFmt h.pixdim }
+  | .qfac, h =>
+      { h with qfac := if h.qfac = c.pixFmt.one ∨ h.qfac = c.pixFmt.negOne then h.qfac else c.pixFmt.one }
+  | .magic, h => h
+  | .offset, h =>
+      { h with voxOffset :=
+          let v := c.voxKind.decode h.voxOffset
+          if v.isZero then h.voxOffset
+          else if stripNul h.magic = c.singleMagic ∧ v.ltInt c.singleVoxOffset = true then c.singleVoxPattern
+          else h.voxOffset }
+  | .qform, h => { h with qform := if h.qform ∈ c.xformCodes then h.qform else 0 }
+  | .sform, h => { h with sform := if h.sform ∈ c.xformCodes then h.sform else 0 }
+  | .eol, h => { h with eol := if h.eol = eolGood then h.eol else eolGood }
+  | .origin, h => h
+  | .version, h => { h with version := if h.version = 1 then h.version else 1 }
+
+/-- `BatteryRunner.check_fix`: checks run in order on the object as modified so far -/
+def runFix (c : ClsSpec) (checks : List CheckId) (h : CF) : CF × List Report :=
+  checks.foldl (fun acc k => (fixOf c k acc.1, acc.2 ++ [reportOf c k acc.1])) (h, [])
+
+/-- `BatteryRunner.check_only` -/
+def runOnly (c : ClsSpec) (checks : List CheckId) (h : CF) : List Report :=
+  checks.map (fun k => reportOf c k h)
+
+/-- the one input on which a check itself raises: `_chk_offset` formats `int(offset)` for the
+    "too low" message, which is an `OverflowError` for -inf (nifti1.py 1917). -/
+def raises (c : ClsSpec) (checks : List CheckId) (h : CF) : Bool :=
+  checks.contains .offset && (c.voxKind.decode h.voxOffset == .ninf) &&
+  (stripNul h.magic == c.singleMagic)
+
+/-- the checks whose problem a repair cannot remove (they report again on the second run) -/
+def unfixable : CheckId → Bool
+  | .datatype | .bitpix | .magic | .offset | .origin => true
+  | _ => false
+
+/-! ### tying `CF` to the record -/
+
+def getRaw (L : Layout) (vals : List (List Nat)) (name : String) : List Nat :=
+  match L.findIdx? name with
+  | some i => vals.getD i []
+  | none => []
+
+def fieldW (L : Layout) (name : String) : Nat :=
+  match L.find? name with
+  | some f => f.iw
+  | none => 0
+
+def getInts (L : Layout) (vals : List (List Nat)) (name : String) : List Int :=
+  (getRaw L vals name).map (toInt (fieldW L name))
+
+def setRaw (L : Layout) (vals : List (List Nat)) (name : String) (v : List Nat) : List (List Nat) :=
+  match L.findIdx? name with
+  | some i => vals.set i v
+  | none => vals
+
+def setInts (L : Layout) (vals : List (List Nat)) (name : String) (v : List Int) : List (List Nat) :=
+  setRaw L vals name (v.map (ofInt (fieldW L name)))
+
+def readCF (L : Layout) (vals : List (List Nat)) : CF where
+  sizeofHdr := (getInts L vals "sizeof_hdr").getD 0 0
+  datatype := (getInts L vals "datatype").getD 0 0
+  bitpix := (getInts L vals "bitpix").getD 0 0
+  qfac := (getRaw L vals "pixdim").getD 0 0
+  pixdim := ((getRaw L vals "pixdim").drop 1).take 3
+  magic := getRaw L vals "magic"
+  voxOffset := (getRaw L vals "vox_offset").getD 0 0
+  qform := (getInts L vals "qform_code").getD 0 0
+  sform := (getInts L vals "sform_code").getD 0 0
+  eol := getInts L vals "eol_check"
+  origin := (getInts L vals "origin").take 3
+  dim := ((getInts L vals "dim").drop 1).take 3
+  version := (getInts L vals "version").getD 0 0
+
+/-- write the (possibly repaired) fields back; only fields some check can write -/
+def writeCF (L : Layout) (vals : List (List Nat)) (h : CF) : List (List Nat) :=
+  let v := setInts L vals "sizeof_hdr" [h.sizeofHdr]
+  let v := setInts L v "bitpix" [h.bitpix]
+  let v := match L.findIdx? "pixdim" with
+           | some _ => setRaw L v "pixdim" (h.qfac :: h.pixdim ++ (getRaw L vals "pixdim").drop 4)
+           | none => v
+  let v := setRaw L v "vox_offset" [h.voxOffset]
+  let v := setInts L v "qform_code" [h.qform]
+  let v := setInts L v "sform_code" [h.sform]
+  let v := setInts L v "eol_check" h.eol
+  setInts L v "version" [h.version]
+
+/-- `BatteryRunner(klass._get_checks()).check_fix(hdr)` on a header given by its bytes:
+    new binaryblock and the reports -/
+def checkFixBytes (c : ClsSpec) (L : Layout) (e : Endian) (bs : List Byte) : List Byte × List Report :=
+  let vals := parse L e bs
+  let r := runFix c c.checks (readCF L vals)
+  (serialize L e (writeCF L vals r.1), r.2)
+
+def checkOnlyBytes (c : ClsSpec) (L : Layout) (e : Endian) (bs : List Byte) : List Report :=
+  runOnly c c.checks (readCF L (parse L e bs))
+
+def raisesBytes (c : ClsSpec) (L : Layout) (e : Endian) (bs : List Byte) : Bool :=
+  raises c c.checks (readCF L (parse L e bs))
+
+/-! ### from_header (analyze.py 350-408): the part that touches `dim` / `pixdim`
+
+    `obj[key] = mapping[key]` copies `dim` and `pixdim` whole; then `set_data_shape(get_data_shape())`
+    rewrites dim and executes `pixdim[ndims+1:] = 1.0` (analyze.py set_data_shape), then
+    `set_zooms(get_zooms())` rewrites pixdim[1:ndims+1].  `pix` is the 8-entry pixdim as bit patterns. -/
+
+/-- `get_zooms()`: pixdim[1 : ndim+1] -/
+def getZooms (nd : Nat) (pix : List Nat) : List Nat := (pix.drop 1).take nd
+
+/-- `set_data_shape` on the pixdims: entries after `ndims` become 1.0 -/
+def setShapePix (F : FloatFmt) (nd : Nat) (pix : List Nat) : List Nat :=
+  pix.take (nd + 1) ++ List.replicate (pix.length - (nd + 1)) F.one
+
+/-- `set_zooms` -/
+def setZoomsPix (nd : Nat) (zooms pix : List Nat) : List Nat :=
+  pix.take 1 ++ zooms.take nd ++ pix.drop (nd + 1)
+
+/-- pixdim of `klass.from_header(src)` for another class of the same float width -/
+def fromHeaderPix (F : FloatFmt) (nd : Nat) (srcPix : List Nat) : List Nat :=
+  setZoomsPix nd (getZooms nd srcPix) (setShapePix F nd srcPix)
+
+/-! ### MGH constructor normalisation (mghformat.py 104-127, 380-385) -/
+
+/-- right zero-pad / truncate to the full (header+footer) size -/
+def mghPad (full : Nat) (bs : List Byte) : List Byte :=
+  bs.take full ++ List.replicate (full - bs.length) 0
+
+/-- `_set_affine_default` when goodRASFlag == 0 -/
+def mghNormalise (L : Layout) (vals : List (List Nat)) : List (List Nat) :=
+  if (getRaw L vals "goodRASFlag").all (· == 0) then
+    let o := fmt32.one
+    let m := fmt32.negOne
+    let v := setRaw L vals "goodRASFlag" [1]
+    let v := setRaw L v "delta" [o, o, o]
+    let v := setRaw L v "Mdc" [m, 0, 0, 0, 0, o, 0, m, 0]
+    setRaw L v "Pxyz_c" [0, 0, 0]
+  else vals
 
 end Nb.C10
